@@ -698,9 +698,10 @@ def check_case(ctx, case, mout):
         ctx.fail(key, "; ".join("%s (%s)" % f for f in fails[:4]), case)
     elif mout.get("hyp") is False and case["cache"] is None and real["res"] == "ok":
         ctx.count("ok-outside-theorem-hypotheses")
-    if mout.get("hyp") and fails:
-        # the theorems say this cannot happen when model and code agree
-        ctx.count("FAIL-under-theorem-hypotheses")
+    if mout.get("hyp") and fails and cm == cr:
+        # model and code agree, the theorems' hypotheses hold (hypB), yet the oracle rejects: oracle and theorems
+        # disagree about what the property says -- a defect of the machinery, surfaced as a broken obligation
+        ctx.disagree("oracle-vs-theorems", case, [f[0] for f in fails], "hypB=true")
     return real
 
 
